@@ -12,6 +12,7 @@ mod alloc;
 mod c22;
 #[path = "m/c29.rs"]
 mod c29;
+mod c17;
 mod c19;
 mod c20;
 mod gen;
@@ -43,7 +44,7 @@ use runner::*;
 static GLOBAL: alloc::Tracking = alloc::Tracking;
 
 fn props() -> Vec<Box<dyn Property>> {
-    vec![Box::new(c01::C01), Box::new(c02::C02), Box::new(c03::C03), Box::new(c04::C04), Box::new(c05::C05), Box::new(c19::C19), Box::new(c20::C20), Box::new(c22::C22), Box::new(c29::C29)]
+    vec![Box::new(c01::C01), Box::new(c02::C02), Box::new(c03::C03), Box::new(c04::C04), Box::new(c05::C05), Box::new(c17::C17), Box::new(c19::C19), Box::new(c20::C20), Box::new(c22::C22), Box::new(c29::C29)]
 }
 
 fn find(id: &str) -> Option<Box<dyn Property>> {
